@@ -44,6 +44,8 @@ TYPES = json.load(open(os.path.join(HERE, "c13_types.json")))
 DUNDER_INPLACE = {"__iadd__", "__isub__", "__imul__", "__itruediv__", "__ifloordiv__", "__imod__", "__ipow__", "__iand__", "__ior__",
                   "__ixor__", "__ilshift__", "__irshift__", "__imatmul__", "__setitem__", "__delitem__", "__idiv__"}
 USED = {}               # (category, name) -> number of call sites classified that way (filled by Analyzer.call)
+LAST_SKIPPED = []       # filled by emit(): in-place-looking constructs without a site, each with the reason
+REBIND_EXEMPT_MODULES = {"linear_operator/settings.py", "linear_operator/utils/memoize.py", "linear_operator/utils/deprecation.py"}
 RETURNS_FRESH = {}      # bare name of a module-level library function -> True if its results never alias its parameters
 
 
@@ -69,6 +71,7 @@ class Fn:
         self.local_closure_defs = set()   # defs created by a nested def / lambda / partial(...): calling them may return what they captured
         self.def_kind = {}       # x -> True if the value is known to be a plain tensor / number / tuple of such
         self.assumed_tensor_params = []
+        self.skipped = []        # (lineno, why, reason): in-place-LOOKING constructs for which no site is emitted (python containers, ...)
 
 
 class Analyzer(ast.NodeVisitor):
@@ -366,6 +369,8 @@ class Analyzer(ast.NodeVisitor):
             if isinstance(f, ast.Attribute) and not self.is_module(f.value):
                 self.inplace(self.alias(f.value), e.lineno, "inplace=")
         out = kws.get("out")
+        if out is not None and isinstance(next(k.value for k in e.keywords if k.arg == "out"), ast.Constant):
+            self.fn.skipped.append((e.lineno, "out=", "constant out= argument (None): nothing is written"))
         if out is not None and not (isinstance(next(k.value for k in e.keywords if k.arg == "out"), ast.Constant)):
             if isinstance(f, ast.Name):
                 self.fn.calls.append((f.id, args, kws, e.lineno, None))
@@ -394,6 +399,8 @@ class Analyzer(ast.NodeVisitor):
                 return (r[0], r[1], True)        # unknown module function: may alias an operand
             if m in VALUE_PRESERVING or m in META_INPLACE:
                 self.used("value_preserving" if m in VALUE_PRESERVING else "metadata_inplace", m)
+                if m in VALUE_PRESERVING:
+                    self.fn.skipped.append((e.lineno, "." + m, "value-preserving in-place method explicitly permitted by the property"))
                 if m in META_INPLACE:
                     self.meta_inplace(f.value, e.lineno, m)
                 return (recv[0], recv[1], False)
@@ -407,6 +414,8 @@ class Analyzer(ast.NodeVisitor):
                 self.used("inplace_method", m)
                 self.inplace(recv, e.lineno, "." + m)
                 return (recv[0], recv[1], False)
+            if m.endswith("_") and not m.endswith("__") and m in NOT_TENSOR_INPLACE:
+                self.fn.skipped.append((e.lineno, "." + m, "not a tensor method (torch_ops.json non_tensor_underscore_methods)"))
             if m in INT_M:
                 self.used("scalar_result_method", m)
                 return (E, False, True)
@@ -537,12 +546,27 @@ class Analyzer(ast.NodeVisitor):
                 # ... but the existing object `self` is changed: an in-place site of the object-identity program
                 tt_ = self.new_def("<self.%s>" % t.attr, lineno, "fresh", obj=(frozenset(), True))
                 self.fn.obj_stmts.append(("inplace", tt_, lineno, "attr-rebind:" + t.attr))
+            elif not (isinstance(t.value, ast.Name) and t.value.id == "self"):
+                # rebinding an attribute of ANOTHER object (a sub-operator `self._linear_op.x = ...`, an argument `other.tensor = ...`):
+                # the object changed is whatever t.value may denote -> in-place site of the object-identity program.  Not objects:
+                # module / settings state; the autograd context `ctx` of Function.forward/backward/setup_context (created by torch
+                # for this very call); the three bookkeeping modules listed in REBIND_EXEMPT_MODULES.
+                base = t.value
+                while isinstance(base, (ast.Attribute, ast.Subscript)):
+                    base = base.value
+                is_ctx = isinstance(base, ast.Name) and base.id == "ctx" and self.fn.node.name in ("forward", "backward", "setup_context")
+                if self.is_module(t.value) or self.is_lib_module(t.value) or is_ctx or self.fn.module in REBIND_EXEMPT_MODULES:
+                    self.fn.skipped.append((lineno, "attr-rebind-other:" + t.attr, "module state / autograd ctx / bookkeeping module"))
+                else:
+                    tt_ = self.new_def("<%s.%s>" % (ast.unparse(t.value)[:30], t.attr), lineno, "fresh", obj=self.objalias(t.value))
+                    self.fn.obj_stmts.append(("inplace", tt_, lineno, "attr-rebind-other:" + t.attr))
         elif isinstance(t, ast.Subscript):
             tgt = self.alias(t.value)
             self.alias(t.slice)
             if isinstance(t.value, ast.Attribute) and t.value.attr in CONTAINER_ATTRS:
-                pass
+                self.fn.skipped.append((lineno, "subscript-assign", "python container attribute .%s" % t.value.attr))
             elif isinstance(t.value, ast.Name) and t.value.id in self.env and self.is_container(t.value.id):
+                self.fn.skipped.append((lineno, "subscript-assign", "python container `%s` (every reaching definition creates a list / dict / set)" % t.value.id))
                 u = self.union([tgt, a])
                 x = self.new_def(t.value.id, lineno, "alias", u[0], u[2], kt=kt and self.kind(t.value))
                 self.fn.def_container.add(x)
@@ -695,6 +719,7 @@ class Analyzer(ast.NodeVisitor):
                     and t.id in self.fn.counter_names
                 if t.id in self.env and self.is_container(t.id) and isinstance(st.op, (ast.Add, ast.Mult, ast.BitOr)):
                     # list += ... / dict |= ...: the (local) container now also holds the operands; no tensor is written
+                    self.fn.skipped.append((st.lineno, "augassign", "python container `%s`" % t.id))
                     u = self.union([cur, v])
                     x = self.new_def(t.id, st.lineno, "alias" if (u[0] or u[1]) else "fresh", u[0], True, kt=self.kind(t) and self.kind(st.value))
                     if u[1]:
@@ -704,14 +729,16 @@ class Analyzer(ast.NodeVisitor):
                     return
                 if not numeric:
                     self.inplace(cur, st.lineno, "augassign")
+                else:
+                    self.fn.skipped.append((st.lineno, "augassign", "int / float counter `%s` (every assignment is a numeric constant or a range() loop)" % t.id))
                 x = self.new_def(t.id, st.lineno, "alias" if (cur[0] or cur[1]) else "fresh", cur[0], True, obj=self.objalias(t),
                                  kt=self.kind(t) and self.kind(st.value))
                 self.bind(t.id, x)
             elif isinstance(t, ast.Subscript):
                 if isinstance(t.value, ast.Attribute) and t.value.attr in CONTAINER_ATTRS:
-                    pass
+                    self.fn.skipped.append((st.lineno, "augassign-subscript", "python container attribute .%s" % t.value.attr))
                 elif isinstance(t.value, ast.Name) and self.is_container(t.value.id):
-                    pass
+                    self.fn.skipped.append((st.lineno, "augassign-subscript", "python container `%s`" % t.value.id))
                 else:
                     self.inplace(self.alias(t.value), st.lineno, "augassign-subscript")
             elif isinstance(t, ast.Attribute):
@@ -1245,9 +1272,15 @@ def emit(fns, helpers, allow):
       (Proofs.refute_check) over the full program; harness/c13.py reports every failing site.
     * allow-listed sites are left out and listed (each with a written justification in c13_allow.json)."""
     L = ["(* GENERATED by harness/own_ir.py from the linear_operator sources — do not edit *)",
-         "From Coq Require Import List Arith Bool.", "Import ListNotations.", "Require Import C13.Own C13.Proofs.", ""]
+         "From Coq Require Import List Arith Bool String.", "Import ListNotations.", "Require Import C13.Own C13.Proofs.", ""]
     table = []
     names, refuted, summaries = [], [], []
+    allowed_names = []
+    name_fn = {}
+    skipped = []
+    for fn in fns:
+        for (ln, why, reason) in fn.skipped:
+            skipped.append({"module": fn.module, "qual": fn.qual, "line": ln, "why": why, "reason": reason})
     k = 0
     for fn in fns:
         sp, op = final_programs(fn, helpers)
@@ -1258,14 +1291,21 @@ def emit(fns, helpers, allow):
             mc_all = cand(lets)
             sites, kept = [], []
             seen_sites = set()
+            allowed_here = []
             for s in prog:
                 if s[0] != "inplace":
                     continue
                 a = allow_match(allow, fn, s, kind)
+                if a is not None and s[1] not in mc_all:
+                    a = None                      # the site passes anyway: the allow-list entry is not needed (and not used)
+                if a is not None and not conditional_program(fn, lets, [(s, a)])[2]:
+                    a = None                      # the entry's stated assumption does not make the site pass: it does not cover it (fail closed)
                 status = "allowed" if a is not None else ("failing" if s[1] in mc_all else "ok")
                 sites.append({"line": s[2], "why": s[3], "status": status, "allow_id": a["id"] if a else None, "target": s[1]})
                 if status == "ok":
                     kept.append(s)
+                if status == "allowed":
+                    allowed_here.append((s, a))
             prog2 = prune(lets + kept)
             mc = sorted(cand(prog2))
             nm = "p%d_%s_%s" % (k, ident(fn.qual)[:60], kind)
@@ -1278,6 +1318,19 @@ def emit(fns, helpers, allow):
             L.append("Definition mc_%s : list nat := [%s]." % (nm, "; ".join(str(x) for x in mc)))
             L.append("Lemma own_%s : own_check (mem mc_%s) %s = true.\nProof. vm_compute. reflexivity. Qed.\n" % (nm, nm, nm))
             names.append(nm)
+            name_fn[nm] = fn
+            if allowed_here:
+                # Coq-checked obligation of the allow-list entries: the FULL program including the allow-listed sites passes own_check
+                # once the assumption each entry states (receiver's own cache slot is library-owned derived data / the named local is
+                # not a tensor) is applied to the IR -- nothing else is taken on trust for these sites
+                cprog, cmc, cok = conditional_program(fn, lets, allowed_here, extra=kept)
+                an = "a%d_%s_%s" % (len(allowed_names), ident(fn.qual)[:60], kind)
+                L.append("(* allow-listed sites of %s :: %s (%s program): %s *)" % (
+                    fn.module, fn.qual, kind, "; ".join(sorted({"%s [%s: %s]" % (s_[3], a_["id"], assumption_text(a_)) for s_, a_ in allowed_here}))))
+                L.append("Definition %s : list stmt := [\n  %s]." % (an, ";\n  ".join(coq_stmt(s_) for s_ in cprog)))
+                L.append("Definition mc_%s : list nat := [%s]." % (an, "; ".join(str(x) for x in sorted(cmc))))
+                L.append("Lemma allow_%s : own_check (mem mc_%s) %s = true.\nProof. vm_compute. reflexivity. Qed.\n" % (an, an, an))
+                allowed_names.append(an)
             # refutation witnesses for failing sites (one per distinct source line / reason)
             for st_ in sites:
                 if st_["status"] != "failing" or (st_["line"], st_["why"]) in seen_sites:
@@ -1347,7 +1400,19 @@ def emit(fns, helpers, allow):
         L.append("Definition rets_%s : list nat := [%s]." % (sn, "; ".join(str(x) for x in rets)))
         L.append("Lemma ret_%s : ret_check mc_%s %s rets_%s = true.\nProof. vm_compute. reflexivity. Qed.\n" % (sn, sn, sn, sn))
         summaries.append(sn)
-    L.append("Definition all_progs : list (list stmt * list nat) := [\n  %s]." % ";\n  ".join("(%s, mc_%s)" % (n, n) for n in names))
+    opn = [n for n in names if name_fn[n].module.startswith("linear_operator/operators/") and name_fn[n].cls is not None]
+    otn = [n for n in names if n not in opn]
+    pl = lambda ns: ("\n  " + ";\n  ".join("(%s, mc_%s)" % (n, n) for n in ns)) if ns else ""
+    L.append("(* programs of the METHODS OF THE OPERATOR CLASSES (linear_operator/operators/*.py) that contain an in-place site *)")
+    L.append("Definition operator_method_progs : list (list stmt * list nat) := [%s]." % pl(opn))
+    L.append("Definition operator_method_names : list string := [%s]." % (
+        "\n  " + ";\n  ".join('"%s :: %s (%s)"%%string' % (name_fn[n].module.split("/")[-1], name_fn[n].qual.replace('"', "'"), n.rsplit("_", 1)[1]) for n in opn) if opn else ""))
+    L.append("(* programs of module-level functions, autograd Functions, utilities, nested functions *)")
+    L.append("Definition other_progs : list (list stmt * list nat) := [%s]." % pl(otn))
+    L.append("Definition all_progs : list (list stmt * list nat) := operator_method_progs ++ other_progs.")
+    L.append("Definition allowed_progs : list (list stmt * list nat) := [%s]." % pl(allowed_names))
+    L.append("Lemma all_allowed_ok : forallb (fun p => own_check (mem (snd p)) (fst p)) allowed_progs = true.")
+    L.append("Proof. vm_compute. reflexivity. Qed.")
     L.append("Lemma all_owned : forallb (fun p => own_check (mem (snd p)) (fst p)) all_progs = true.")
     L.append("Proof. vm_compute. reflexivity. Qed.")
     L.append("Definition refuted_sites : list (list stmt * list nat) := [%s]." % (
@@ -1360,7 +1425,45 @@ def emit(fns, helpers, allow):
     L.append("Proof. vm_compute. reflexivity. Qed.")
     L.append("Definition n_functions_scanned : nat := %d." % len(fns))
     L.append("Definition n_programs : nat := %d." % len(names))
+    LAST_SKIPPED[:] = skipped
     return "\n".join(L) + "\n", table
+
+
+def assumption_text(a):
+    asm = a.get("assume", "receiver-slot")
+    if asm == "receiver-slot":
+        return "the attribute slot of the receiver object is library-owned derived data"
+    return "locals %s are not tensors" % ", ".join(asm.get("fresh_names", []))
+
+
+def conditional_program(fn, lets, allowed, extra=()):
+    """the program including the allow-listed in-place sites, with the assumption stated by each entry applied:
+    'receiver-slot' (default): the `Let t SelfAttr` of the site's own target t is dropped (the slot rebound is the receiver's own
+    cache slot, library-owned derived data); {'fresh_names': [...]}: every definition of the named locals becomes Fresh (the local
+    is declared not to be a tensor).  -> (program, candidate set, passes)"""
+    drop_self, fresh_defs = set(), set()
+    for s, a in allowed:
+        asm = a.get("assume", "receiver-slot")
+        if asm == "receiver-slot":
+            drop_self.add(s[1])
+        elif isinstance(asm, dict):
+            for x, (nm, _ln) in fn.def_info.items():
+                if nm in asm.get("fresh_names", []):
+                    fresh_defs.add(x)
+    lets2, done = [], set()
+    for l in lets:
+        if l[2] == "selfattr" and l[1] in drop_self:
+            continue
+        if l[1] in fresh_defs:
+            if l[1] not in done:
+                done.add(l[1])
+                lets2.append(("let", l[1], "fresh", [], False))
+            continue
+        lets2.append(l)
+    prog = prune(lets2 + list(extra) + [s for s, _ in allowed])
+    mc = cand(prog)
+    ok = not any(s[0] == "inplace" and s[1] in mc for s in prog)
+    return prog, mc, ok
 
 
 def allow_match(allow, fn, s, kind):
